@@ -5,7 +5,8 @@
    every run, not proved.  parse_lines = parse_script after line splitting; llines = the logical lines. *)
 From BS Require Import Model.Base Model.Regex Model.Num Model.ExprParser Model.Script Model.ScriptX Model.Lower
   Gen.Unicode Proofs.ScriptFacts Proofs.C06 Proofs.C10 Proofs.C10ws Proofs.C10wsExpr Proofs.C10wsIndent
-  Proofs.ExprFuel Proofs.C10wsFull Proofs.RegexShiftG Proofs.C10wsIndent2 Proofs.C10wsReturn.
+  Proofs.ExprFuel Proofs.C10wsFull Proofs.RegexShiftG Proofs.C10wsIndent2 Proofs.C10wsReturn
+  Proofs.C10tokLex Proofs.C10tokSpaced.
 
 (* ---- LF versus CRLF: both texts have the same lines ---- *)
 Theorem C10_crlf : forall lines, lines <> [] -> Forall no_lf lines -> Forall (fun l => ends_cr l = false) lines ->
@@ -155,6 +156,56 @@ Theorem C10_ws_return_bare : forall n ws1 ws2, white ws1 -> white ws2 ->
   Lower.classify n (ws1 ++ U "return" ++ ws2) = ROk (KReturn None).
 Proof. exact classify_return_bare. Qed.
 Print Assumptions C10_ws_return_bare.
+
+(* ---- white space BETWEEN the tokens of an expression (round 5, Proofs/C10tokLex.v, Proofs/C10tokSpaced.v).
+   spaced t1 t2 (= sp PU t1 t2, an inductive relation between two TEXTS): both are the same sequence of token texts, every
+   token preceded by its own arbitrary, possibly EMPTY, run of `\s` characters in t1 and in t2, plus arbitrary trailing
+   white space.  The relation follows the order of tokens the grammar allows (operand position / after an operand / right
+   after `name(`), which is why an empty gap is harmless: no two neighbours the grammar allows merge into a longer token.
+   Tokens: ( ) , the unary ! and -, the fourteen binary operators (In op spec_ops), identifiers, calls `name (` (the
+   regex itself allows white space between the name and its parenthesis; a one-letter name is never a call), number literals
+   (numtok: the literal reading consumes all of the token; a leading `+` belongs to the literal, a leading `-` is the unary
+   operator, exactly as the parser reads them), and OPAQUE atoms (atom_reads): a '...' or "..." literal or a [...] variable
+   is any text that starts with the opening delimiter and that the atom's own regenerated regex reads completely, with the
+   same captured text, in front of both remainders — its interior is never touched.
+   White space is only inserted/removed BETWEEN tokens, never inside one (`< =`, `* *`, `1 .5`, `a b` for `ab`, `+ 1` for
+   the literal `+1` are different texts: C10_ex_ws_tokens_inside).
+   PARTIAL: (a) only the result EOk is related (hence, sp being symmetric, t1 parses iff t2 parses, to the same tree; the
+   message/column of a rejected text is not related); (b) string / bracket atoms are characterised through their regex,
+   not syntactically.
+   Proved by running the parser on both texts in lockstep; the token regexes are read through the direct readings of
+   Proofs/C02rx.v / C13rx.v (skip white space, then first-character test / longest run), the three atom regexes through
+   their first literal. ---- *)
+Theorem C10_ws_expression_tokens_partial : forall t1 t2 e, spaced t1 t2 ->
+  parse_expression t1 = EOk e -> parse_expression t2 = EOk e.
+Proof. exact spaced_parse. Qed.
+Print Assumptions C10_ws_expression_tokens_partial.
+
+Theorem C10_ws_spaced_symmetric : forall t1 t2, spaced t1 t2 -> spaced t2 t1.
+Proof. exact (sp_sym PU). Qed.
+Print Assumptions C10_ws_spaced_symmetric.
+
+Theorem C10_ws_expression_tokens_iff_partial : forall t1 t2 e, spaced t1 t2 ->
+  (parse_expression t1 = EOk e <-> parse_expression t2 = EOk e).
+Proof. exact spaced_parse_iff. Qed.
+Print Assumptions C10_ws_expression_tokens_iff_partial.
+
+(* non-vacuity: one expression with every token kind (call, number, unary, variable, group, string, exponent literal, all
+   operator lengths, empty argument list, bracket variable, double-quoted string), once with no white space at all and once
+   with blanks / a tab / two blanks at every gap: related, and both parse to the same tree *)
+Example C10_ex_ws_tokens :
+  ex_tight = U "fn(1,-x)+'a b'*(y<=2.5e+3)||!gg()&&[k 1]!=""q""" /\
+  ex_loose = U " fn ( 1 , - x )  + 'a b' *\000009( y <= 2.5e+3 ) || ! gg ( ) && [k 1] != ""q"" " /\
+  exists e, parse_expression ex_tight = EOk e /\ parse_expression ex_loose = EOk e /\ spaced ex_tight ex_loose.
+Proof. split; [reflexivity|]. split; [reflexivity|]. exact spaced_example_parse. Qed.
+
+Example C10_ex_ws_tokens_inside :
+  parse_expression (U "a<=b") <> parse_expression (U "a< =b") /\
+  parse_expression (U "a**b") <> parse_expression (U "a* *b") /\
+  parse_expression (U "ab") <> parse_expression (U "a b") /\
+  parse_expression (U "x+1") = parse_expression (U "x + 1") /\
+  parse_expression (U "+1") <> parse_expression (U "+ 1").
+Proof. exact spaced_counterexamples. Qed.
 
 (* C10_ws_tokens_partial — the FULL clause "breaking a line at any point where a space is allowed / changing indentation or
    trailing whitespace yields the same statement" needs whitespace-insensitivity of EVERY statement regex and of the
